@@ -114,7 +114,7 @@ func (l *leanStore) ValidateTokenExchangeRequest(ctx context.Context, r op.Token
 }
 
 // newLeanRig is rig.New with the lean storage between provider and refstore (same configuration, both routers).
-func newLeanRig(cfg *refstore.Config, issuerFn func(bool) (op.IssuerFromRequest, error)) *rig.Rig {
+func newLeanRig(cfg *refstore.Config, issuerFn func(bool) (op.IssuerFromRequest, error), opts ...op.Option) *rig.Rig {
 	if issuerFn == nil {
 		issuerFn = op.StaticIssuer(rig.Issuer)
 	}
@@ -124,7 +124,7 @@ func newLeanRig(cfg *refstore.Config, issuerFn func(bool) (op.IssuerFromRequest,
 		panic("refstore.New(CapAll) lacks an optional storage interface")
 	}
 	st := &leanStore{fullStorage: full, core: core}
-	p, err := op.NewProvider(rig.DefaultOPConfig(), st, issuerFn, op.WithLogger(rig.Discard))
+	p, err := op.NewProvider(rig.DefaultOPConfig(), st, issuerFn, append([]op.Option{op.WithLogger(rig.Discard)}, opts...)...)
 	if err != nil {
 		panic(err)
 	}
